@@ -263,8 +263,16 @@ def stored_workbook(rng, tmpdir, modes=None):
         from DHLLDV.PipeObj import Pipeline
         pl = G.random_pipeline(rng, n_pumps=0)
         secs = list(pl.pipesections)
+        last_ = None
         for m_ in modes:
-            secs.insert(len(secs) - 1, G.random_pump(rng, mode=m_))
+            if m_ == 'twin' and last_ is not None:
+                # a second pump of the same model on an equal drive (a booster that is a copy of the first pump): it needs its own driver tab like any other
+                q_ = G.clone_pump(last_)
+                q_._example = getattr(last_, '_example', last_.name)
+            else:
+                q_ = G.random_pump(rng, mode=m_)
+            last_ = q_
+            secs.insert(len(secs) - 1, q_)
         pl = Pipeline(name='generated', pipe_list=secs, slurry=pl.slurry)
     pl.name = rng.choice(['generated line', 'Test_1', 'A-B', 'x'])
     with warnings.catch_warnings():
